@@ -51,13 +51,13 @@ CLAIMED = {
    ref='§5 C02, §0', technique='Lean 4 proof over a byte-exact model (Expat as parameter) + differential run under sanitizers + heap and stack ladders',
    note=TB + ' Expat (well-formedness, entity expansion, event order) is assumed, and recorded for every input. Known finding: nesting deeper than ~60k levels exhausts the 8 MiB stack. x2w_embedded_fuel_partial: the bound on nested embedded documents is a property of Expat\'s runs, stated under the Ranked hypothesis.'),
  'C03': dict(
-   text='Round-trip theorems over the conversion models (Props/C03.lean): build_reconstructs (the tree builder over the events of any grammar document yields the tree read off that document), rt_preserves_partial (XML tree -> WBXML -> tree gives the source tree in normal form: same nesting, names, attributes with values in order, character data after the documented normalisation), norm_idempotent (+ witnesses that its hypotheses are needed), and the second round trip with Expat as the single stated assumption ReadsBack: rt2_is_rt1_partial (same event view, same tree up to canon, and the printed XML of the second trip equals the first octet by octet). _partial marks exactly: names identified up to token-row/literal (canon), no <Data> elements / CDATA / embedded documents / typed content / ActiveSync alias in the first trip, languages without namespace table in the second. Negative witnesses: WBXML octets of first and second trip may differ (known finding empty-element-form). Tie: correspondence of both conversions on every step; implementation-side oracle: Expat re-reads the round-tripped XML and tools/docmp.py compares nesting, names (alias classes), attributes, character data under exactly the documented normalisations; second round trip byte-identical.',
+   text='Round-trip theorems over the conversion models (Props/C03.lean): build_reconstructs(_data), exact_row_main / tag_tables_names_uniq / attr_start_row_spec (token names and attribute start rows come back as the very same table rows; single exception: one ActiveSync alias, stated), rt_preserves_typed_partial (XML tree -> WBXML -> tree is EXACTLY the source in typed normal form normNodeTyped, for plain trees of 26 languages incl. typed content and <Data> elements whose SyncML type is normal, under the four recorded finding hypotheses), rt_preserves_exact_untyped, norm_typed_idempotent (hypotheses shown necessary), second trip with Expat as the single stated assumption: rt2_is_rt1_partial (14 languages without namespaces) and rt2_is_rt1_ns_partial (9 namespace languages): same tree and octet-identical XML text on the second trip. Negative witnesses: the WBXML octets of first and second trip may differ (known finding empty-element-form). Tie: correspondence of both conversions on every step; implementation-side oracle: Expat re-reads the round-tripped XML and tools/docmp.py compares nesting, names (alias classes), attributes, character data under exactly the documented normalisations; second round trip byte-identical.',
    ref='§5 C03, §0', technique='Lean 4 proof (composition of encoder, parser and builder theorems; Expat as stated assumption) + differential round trips with an independent document comparison',
-   note=TB + ' Genuine data-changing corner cases are recorded as known findings (known_findings.json: attributes dropped for languages without attribute table, CDATA in typed elements, invalid typed text accepted, embedded documents without type label, ...); eight defects found by this check were fixed.'),
+   note=TB + ' _partial marks: Wireless Village / OTA typed views, <Data> with vObject / embedded types, CDATA and embedded documents in the source, attributes in the namespace second trip. Genuine data-changing corner cases are recorded as known findings (known_findings.json); nine defects found by this check were fixed.'),
  'C05': dict(
-   text='Theorems over the XML printer model: escaped text never contains markup characters, unescape(escape s) = s in every mode, CR never literal, canonical mode escapes CR/LF/TAB, CDATA text cannot terminate its section, header carries the DOCTYPE (Props/C05.lean, growing). Tie: W2X correspondence (byte-exact) + oracle: Expat (plain, non-namespace) accepts the output, DOCTYPE matches the language, events read back equal the event parser\'s (exactly in canonical mode).',
-   ref='§5 C05', technique='Lean 4 proof over the printer model + independent XML parser as oracle',
-   note=TB + ' Well-formedness against the XML Recommendation is carried by Expat as independent reader. Three defects fixed (nested CDATA, ]]> in CDATA, literal-root namespace).'),
+   text='A specification of XML 1.0 well-formedness written in Lean from the Recommendation (Spec/Xml.lean: strict reader for the productions the printer can emit, refusing unescaped markup, ]]> in content, mismatched tags, duplicate attributes, bad names, non-XML characters, ill-formed UTF-8) and theorems over the printer model: output_well_formed_partial and output_denotes_tree_partial (for every tree meeting the property\'s precondition xmlRepresentable - 16 necessity witnesses - the output of compact and canonical generation is accepted by the specification reader, carries the language\'s DOCTYPE, and reads back as exactly the tree\'s view: elements, attributes incl. namespace declarations, character data, CDATA contributing its text, embedded documents), indent_output_well_formed_partial / indent_output_denotes_tree_partial (any indentation: equal up to blanks), plus escaping laws, cdata_holds_character_data_only, namespace_in_scope_matches_page, xmlns_declared_iff_page_differs, no_indent_in_text_only_elements, doctype_matches_language. Tie: W2X correspondence (byte-exact) + three comparisons on the implementation\'s outputs: Expat (plain and namespace-aware) and the Lean reader must agree on accept / reject and on the events (also on a malformed stream of mutated outputs), and the document the theorem predicts must equal what is read from the real output.',
+   ref='§5 C05, §0', technique='Lean 4 proof over the printer model against a Lean specification of XML well-formedness; Expat and the specification reader cross-validated on every output',
+   note=TB + ' The specification reader is trusted as a transcription of the XML Recommendation for the subset (no comments, PIs, internal subsets); its agreement with Expat is measured on every run (0 disagreements on 111k outputs + 135k mutants in the thorough tier). _partial: CDATA nodes with several children or an embedded document inside. Five defects fixed (nested CDATA twice, ]]> in CDATA, literal-root namespace, namespace in scope).'),
  'C06': dict(
    text='Theorems over the WBXML encoder model: for every tree - header_is_ser, header fields (version, charset UTF-8 except WBXML 1.0, public id numeric / textual / 01 when anonymous), strtbl_len_exact, strtbl_invariant, switch_iff_page_changes; under the decidable table facts proved for all 29 compiled languages - enc_is_ser (output = Spec.ser d), refs_hit_entry_starts, literals_only_via_strtbl, token_under_own_page, and enc_is_ser_wf / decodes_by_spec for ALL languages incl. typed content (WV integers and date-times, SI/EMN date-times, base64 binary): the output is a well-formed grammar document and the parser delivers exactly Spec.events d, under four hypotheses on the source each of which is a recorded known finding and is shown necessary by a kernel-checked witness; by-value laws per typed form; denotes_source_partial (event view = source view) for plain trees of 21 languages. Tie: X2W correspondence over all option tuples; oracle on the implementation\'s bytes: structural walker (header, table, references), strict decode by the Lean specification reader (SPEC), decoded events = source document.',
    ref='§5 C06, §0', technique='Lean 4 proof over the encoder model + strict specification decoder as oracle',
@@ -83,9 +83,9 @@ CLAIMED = {
    ref='§5 C18, §0', technique='Lean 4 proof (invariant + abstraction by induction over histories; simulation of the XML front end) + lock-step differential histories',
    note=TB + ' Known finding: extracting a node between two text siblings leaves them adjacent (no_adjacent_text_partial). One defect fixed (extract_node on a detached node).'),
  'C16': dict(
-   text='Theorems over an allocation-ledger model (free monad over malloc / realloc / free / dereference with a failure schedule; block ids never reused, so stale pointers, double frees and leaks are visible): for EVERY failure schedule (single failures and pairs are instances) the modelled functions - buffers, lists, names, attributes, tree nodes, parse_attribute / parse_element with the attribute table, the tree-building call-backs over arbitrary event lists (tree_from_wbxml_events_clean), encoder create / destroy / init_output, the whole string-table chain (collect_strings, split_words, collect_words, check_references, strtbl_initialize_clean with the explicit set of request sites whose failure is benign by design), fill_header, build_result, encoder_encode_tree with and without string table, tree_to_wbxml_no_leak - never fault, release everything they allocated, and report every non-benign failure; kernel-checked witnesses show the former code failing the clause. the WBXML parser main loop (parse_document_clean, tree_from_wbxml_clean) and the composed WBXML -> tree -> WBXML pipeline (oom_result_sound_wbxml2wbxml: every non-benign failure is reported, nothing leaks, for every k). oom_result_sound_partial keeps its name because two pipelines have an unproved half: the XML printer (wbxml2xml) and the Expat call-backs (xml2wbxml), plus WV / date-time decoders and embedded documents - those are covered by exhaustive enumeration of k only (a test, labelled so).',
+   text='Theorems over an allocation-ledger model (free monad over malloc / realloc / free / dereference with a failure schedule; block ids never reused, so stale pointers, double frees and leaks are visible): for EVERY failure schedule (single failures and pairs are instances) the modelled functions - buffers, lists, names, attributes, tree nodes, parse_attribute / parse_element with the attribute table, the tree-building call-backs over arbitrary event lists (tree_from_wbxml_events_clean), encoder create / destroy / init_output, the whole string-table chain (collect_strings, split_words, collect_words, check_references, strtbl_initialize_clean with the explicit set of request sites whose failure is benign by design), fill_header, build_result, encoder_encode_tree with and without string table, tree_to_wbxml_no_leak - never fault, release everything they allocated, and report every non-benign failure; kernel-checked witnesses show the former code failing the clause. the WBXML parser main loop (parse_document_clean, tree_from_wbxml_clean), the XML printer (tree_to_xml_clean) and the Expat call-backs over arbitrary event lists (tree_from_xml_events_clean); oom_result_sound_partial is ONE theorem over the four pipelines wbxml2xml (strict), xml2wbxml, wbxml2wbxml (up to the explicit benign string-table sites) and xml2xml (strict). It keeps the suffix because some allocating code is in no model: temporaries of the WBXML value encoder and typed encoders, WV / date-time decoders, embedded documents, Expat itself - covered by exhaustive enumeration of k only (a test, labelled so).',
    ref='§5 C16, §0', technique='Lean 4 proof over an allocation-ledger monad + exhaustive single-failure enumeration (pairs in thorough) on the real code with an interposed allocator under ASan/LSan',
-   note=TB + ' Allocation failure is injected by replacing wbxml_mem.c at link time (no source hook); Expat allocations are outside the property. Known finding: check_public_id() reports an out-of-memory while reading a textual public id of an embedded document as unknown public id. 20 defects fixed.'),
+   note=TB + ' Allocation failure is injected by replacing wbxml_mem.c at link time (no source hook); Expat allocations are outside the property. Known finding: check_public_id() reports an out-of-memory while reading a textual public id of an embedded document as unknown public id. 21 defects fixed.'),
  'C14': dict(
    text='Theorem schedule_independence for an abstract machine with read-only shared state and per-thread local state (any number of threads, any programs, any two complete interleavings: every thread sees exactly its sequential outputs), instantiated for the library through structural premises proved by kernel evaluation over the symbol table regenerated from the current build: no writable global/static object or section, no external symbol that POSIX allows to be non-reentrant or that mutates process state. Partial: a C-level data race is not expressible in the model; ThreadSanitizer runs of 2-16 threads compared with sequential runs are validation and counter-example search, not proof.',
    ref='§5 C14', technique='Lean 4 proof (induction over schedules) + decide over regenerated symbol dump; TSan differential run as validation',
